@@ -326,6 +326,7 @@ impl Fault {
             Fault::DigestLen(DigestFault::Short(_)) => "fault:digest-short",
             Fault::DigestLen(DigestFault::Long(_)) => "fault:digest-long",
             Fault::DigestLen(DigestFault::EmptySwap) => "fault:digest-empty-swap",
+            Fault::DigestLen(DigestFault::TwoOctets { .. }) => "fault:digest-two-octets",
         }
     }
 }
